@@ -406,6 +406,7 @@ fn gen_template(ch: &mut Chooser, plain: &[String], groups: &[Vec<String>], dept
                     items.push((Tmpl::Sym(name), false));
                 }
             }
+            2 if ch.chance(1, 6) => items.push((Tmpl::List(vec![]), false)),
             2 => items.push((Tmpl::Datum(atom_datum(ch)), false)),
             3 if !groups.is_empty() => {
                 // an ellipsis sub-template over the variables of one pattern ellipsis
@@ -415,7 +416,10 @@ fn gen_template(ch: &mut Chooser, plain: &[String], groups: &[Vec<String>], dept
                     let k = 1 + ch.below(g.len().min(2));
                     let inner: Vec<(Tmpl, bool)> = (0..k).map(|_| (Tmpl::Var(g[ch.below(g.len())].clone()), false)).collect();
                     let inner = if ch.chance(1, 4) { Tmpl::Vector(inner) } else { Tmpl::List(inner) };
-                    match ch.below(4) {
+                    match ch.below(6) {
+                        // an empty list as a constant of the repeated sub-template
+                        4 => Tmpl::List(vec![(Tmpl::Sym("entry".into()), false), (inner, false), (Tmpl::List(vec![]), false)]),
+                        5 => Tmpl::List(vec![(Tmpl::List(vec![]), false), (inner, false)]),
                         0 => Tmpl::List(vec![(Tmpl::Sym("entry".into()), false), (inner, false)]),
                         1 => Tmpl::Vector(vec![(inner, false)]),
                         2 => Tmpl::List(vec![(Tmpl::Datum(Datum::Int(1)), false), (inner, false), (Tmpl::Datum(Datum::Str("s".into())), false)]),
@@ -425,7 +429,11 @@ fn gen_template(ch: &mut Chooser, plain: &[String], groups: &[Vec<String>], dept
                     Tmpl::Var(g[ch.below(g.len())].clone())
                 } else {
                     let k = 1 + ch.below(g.len());
-                    let elems: Vec<(Tmpl, bool)> = (0..k).map(|_| (Tmpl::Var(g[ch.below(g.len())].clone()), false)).collect();
+                    let mut elems: Vec<(Tmpl, bool)> = (0..k).map(|_| (Tmpl::Var(g[ch.below(g.len())].clone()), false)).collect();
+                    if ch.chance(1, 4) {
+                        let at = ch.below(elems.len() + 1);
+                        elems.insert(at, (Tmpl::List(vec![]), false));
+                    }
                     if ch.chance(1, 4) {
                         Tmpl::Vector(elems)
                     } else {
@@ -571,6 +579,67 @@ pub fn random_case(ch: &mut Chooser) -> Report {
     rep
 }
 
+/// a history of rejected uses (no rule matches) nested inside other macro uses, all on one thread, must not change how
+/// later uses are expanded - on the same interpreter and on one created afterwards
+pub fn rejection_history_case(ch: &mut Chooser) -> Report {
+    let k = if ch.chance(1, 4) { 1 + ch.below(40) } else { 150 + ch.below(250) };
+    let wrapper = ch.below(6);
+    let wrap = move |u: &str| match wrapper {
+        0 => format!("(let ((x 1)) {})", u),
+        1 => format!("(when #t {})", u),
+        2 => format!("(cond (#f 0) (else {}))", u),
+        3 => format!("(begin 0 {})", u),
+        4 => format!("(outer {})", u),
+        _ => format!("(let* ((x 1) (y x)) (list y {}))", u),
+    };
+    let mut rep = Report::new(format!("{} rejected uses written as {}", k, wrap("(pick third x 2)")));
+    rep.label(format!("wrapper:{}", wrapper));
+    rep.label(if k >= 150 { "rejections:150-399" } else { "rejections:1-40" });
+    rep.nontrivial = k >= 150;
+    let verdict: Result<(), (String, String)> = sut::in_thread(move || {
+        let mut s = Session::stdlib().unwrap().with_budget(sut::Budget::FUZZ);
+        let defs = [
+            "(define-syntax pick (syntax-rules (first second) ((pick first a b) a) ((pick second a b) b)))",
+            "(define-syntax outer (syntax-rules () ((outer e) (list e))))",
+            "(define x 7)",
+        ];
+        for d in defs {
+            if !matches!(s.eval(d), Outcome::NoValue) {
+                return Err(("rule-set-rejected".to_string(), d.to_string()));
+            }
+        }
+        let bad = wrap("(pick third x 2)");
+        for i in 0..k {
+            match s.eval(&bad) {
+                Outcome::Error(_) => {}
+                Outcome::Panic { site, msg } => return Err((sut::panic_sig(&site, &msg), format!("rejected use {}", i))),
+                other => return Err(("no-match-not-reported".to_string(), format!("rejected use {} gave {}", i, other.show()))),
+            }
+        }
+        let good = [("(pick second 1 2)", SVal::int(2)), ("(let ((q 5)) (pick first q 2))", SVal::int(5)), ("(when #t (pick second 1 (pick first 8 9)))", SVal::int(8))];
+        for (text, want) in &good {
+            match s.eval(text) {
+                Outcome::Value(v) if v == *want => {}
+                Outcome::Panic { site, msg } => return Err((sut::panic_sig(&site, &msg), text.to_string())),
+                other => return Err(("matching-use-fails-after-rejected-uses".to_string(), format!("{} gave {} after {} rejected uses", text, other.show(), k))),
+            }
+        }
+        // an interpreter created afterwards on the same thread
+        let mut t = match Session::stdlib() {
+            Ok(t) => t.with_budget(sut::Budget::FUZZ),
+            Err(e) => return Err(("new-interpreter-fails-after-rejected-uses".to_string(), format!("{:?}", e))),
+        };
+        match t.eval("(let ((a 1)) (cond ((= a 1) (when #t (+ a 1))) (else 0)))") {
+            Outcome::Value(v) if v == SVal::int(2) => Ok(()),
+            other => Err(("bundled-macros-fail-after-rejected-uses".to_string(), other.show())),
+        }
+    });
+    if let Err((sig, detail)) = verdict {
+        rep.fail(sig, detail);
+    }
+    rep
+}
+
 pub fn run(ctx: &Ctx) {
     ctx.set_rule(
         "(define-syntax m (syntax-rules (lits) ((m . pattern) 'template) ...)) followed by uses (m . args) whose value is the \
@@ -580,7 +649,7 @@ pub fn run(ctx: &Ctx) {
          of <= 3 elements over {the literal, another symbol, two data, a nested list, a nested vector, a dotted pair}, the \
          shorter uses also with a dotted tail; (b) random rule sets (<= 5 rules, nesting <= 3, vectors, literals, ellipsis \
          over list sub-patterns, ellipsis sub-templates with constants around nested ellipsis variables) with uses \
-         instantiated from their own patterns and mutated (incl. improper lists). Oracle: reference matcher/instantiator; one fresh interpreter thread per rule set. \
+         instantiated from their own patterns and mutated (incl. improper lists); (c) histories of 1-399 rejected uses nested in other macro uses on one thread, followed by matching uses on the same and on a new interpreter. Oracle: reference matcher/instantiator; one fresh interpreter thread per rule set. \
          Non-trivial = a later rule is chosen, an ellipsis matches >= 2 items, nesting >= 2, or literals are present.",
     );
     let pats = small_patterns();
@@ -603,4 +672,6 @@ pub fn run(ctx: &Ctx) {
     });
     let cases = ctx.tier.pick(10_000, 100_000);
     ctx.random("random-rule-sets", cases, 400, random_case);
+    let histories = ctx.tier.pick(96, 600);
+    ctx.random("rejection-history", histories, 8, rejection_history_case);
 }
